@@ -216,20 +216,79 @@ func reachAvoidBB(from, to *ssa.BasicBlock, cut map[[2]int]bool, barrier map[*ss
 func c06Protected(c *Ctx, sx *symx.Ctx) {
 	r := c.R
 	// scoreTerms
-	fn := c.P.Func("internal/database", "Database", "scoreTerms")
-	fk := "database.(*Database).scoreTerms"
-	if r.Anchor("O-3", fk, fn != nil) {
+	// the function that turns the term list into scored terms, and the one
+	// that cuts a scored list down to the cap: found by what they take and
+	// return, not by name
+	isScoredList := func(t types.Type) bool {
+		sl, ok := t.Underlying().(*types.Slice)
+		return ok && ssau.NamedOf(sl.Elem()) == dbPkg+".termWithScore"
+	}
+	isStringList := func(t types.Type) bool {
+		sl, ok := t.Underlying().(*types.Slice)
+		if !ok {
+			return false
+		}
+		b, ok := sl.Elem().Underlying().(*types.Basic)
+		return ok && b.Kind() == types.String
+	}
+	var fn, ff *ssa.Function
+	var termsP, preserveP, listP *ssa.Parameter
+	for _, cand := range shippedFuncs(c) {
+		if pk := c.P.PkgOfFunc(cand); pk == nil || pk.PkgPath != dbPkg || cand.Signature.Results().Len() != 1 || cand.Parent() != nil {
+			continue
+		}
+		res := cand.Signature.Results().At(0).Type()
+		if isScoredList(res) {
+			var tp, ip *ssa.Parameter
+			for _, p := range cand.Params {
+				if isStringList(p.Type()) {
+					tp = p
+				}
+				if b, ok := p.Type().Underlying().(*types.Basic); ok && b.Kind() == types.Int {
+					ip = p
+				}
+			}
+			if tp != nil && ip != nil {
+				fn, termsP, preserveP = cand, tp, ip
+			}
+		}
+		if isStringList(res) {
+			var lp *ssa.Parameter
+			for _, p := range cand.Params {
+				if isScoredList(p.Type()) {
+					lp = p
+				}
+			}
+			readsOrig := false
+			ssau.ForEachInstr(cand, false, func(in ssa.Instruction) {
+				switch x := in.(type) {
+				case *ssa.FieldAddr:
+					readsOrig = readsOrig || ssau.FieldName(x) == "isOriginal"
+				case *ssa.Field:
+					readsOrig = readsOrig || ssau.FieldName(x) == "isOriginal"
+				}
+			})
+			if lp != nil && readsOrig {
+				ff, listP = cand, lp
+			}
+		}
+	}
+	fk := "database.scoreTerms"
+	if fn != nil {
+		fk = load.FuncKey(fn)
+	}
+	if r.Anchor("O-3", "database: function scoring the term list ([]string, int) -> []termWithScore", fn != nil) {
 		var loop *ssau.RangeLoop
 		ls := ssau.RangeLoops(fn)
 		for i := range ls {
-			if ls[i].Over == ssa.Value(fn.Params[1]) || ssau.ParamOf(ls[i].Over) == fn.Params[1] {
+			if ls[i].Over == ssa.Value(termsP) || ssau.ParamOf(ls[i].Over) == termsP {
 				loop = &ls[i]
 			}
 		}
 		if loop == nil {
 			r.Bad("O-3", fk+"#range-terms", c.P.Pos(fn.Pos()), "no range loop over the terms parameter")
 		} else {
-			preserve := fn.Params[2]
+			preserve := preserveP
 			cut := map[[2]int]bool{}
 			barrier := map[*ssa.BasicBlock]bool{}
 			for _, b := range fn.Blocks {
@@ -262,9 +321,11 @@ func c06Protected(c *Ctx, sx *symx.Ctx) {
 		}
 	}
 	// filterAndSortTerms
-	ff := c.P.Func("internal/database", "Database", "filterAndSortTerms")
-	fk2 := "database.(*Database).filterAndSortTerms"
-	if r.Anchor("O-3", fk2, ff != nil) {
+	fk2 := "database.filterAndSortTerms"
+	if ff != nil {
+		fk2 = load.FuncKey(ff)
+	}
+	if r.Anchor("O-3", "database: function cutting the scored list to the cap ([]termWithScore ...) -> []string, reads isOriginal", ff != nil) {
 		f := sx.Of(ff)
 		ls := ssau.RangeLoops(ff)
 		// the loop that appends item.term of the list built from isOriginal items
@@ -310,7 +371,7 @@ func c06Protected(c *Ctx, sx *symx.Ctx) {
 		if origLoop == nil {
 			cd := ssau.ControlDeps(ff)
 			for i := range ls {
-				if ls[i].IsMap || ls[i].Over == nil || ssau.ParamOf(ls[i].Over) == nil && ls[i].Over != ssa.Value(ff.Params[1]) {
+				if ls[i].IsMap || ls[i].Over == nil || ssau.ParamOf(ls[i].Over) != listP && ls[i].Over != ssa.Value(listP) {
 					continue
 				}
 				for _, a := range outAppends {
